@@ -63,8 +63,21 @@ def w_sub(arg):
     res = {"cases": 0, "with_occurrence": 0, "applied": 0, "rolled_back": 0, "skipped_undefined": 0, "violations": [],
            "nontrivial": [], "samples": [], "trees_compared": 0, "self_subst": 0, "count_limited": 0, "returned_count_differs": 0,
            "ignored_lines_kept": 0, "untouched_lines_checked": 0}
-    for case in arg["cases"]:
+    for case0 in arg["cases"]:
+        variants = [case0]
+        if case0.get("self_subst") and not re.search(r"\{\{\.\.\.", case0["pattern"]) and not re.search(r"\{\{\w+[?*+]\}\}", case0["pattern"]) \
+                and case0["repl"] != case0["pattern"]:
+            variants.append(dict(case0, repl=case0["pattern"], self_subst=False, is_self=True))
+        for case in variants:
+            _analyse(case, res, pm, R, matcher, sched_model, span, subst)
+    return res
+
+
+def _analyse(case, res, pm, R, matcher, sched_model, span, subst):
+    if True:
         pattern, repl, source, count = case["pattern"], case["repl"], case["source"], case.get("count", 0)
+        if case.get("is_self"):
+            res["self_subst"] += 1
 
         def viol(kind, detail):
             if len(res["violations"]) < 60:
@@ -82,19 +95,19 @@ def w_sub(arg):
                 raise matcher.Undefined("top-level quantifier (known C12 finding)")
         except (matcher.Undefined, SyntaxError, ValueError, RecursionError):
             res["skipped_undefined"] += 1
-            continue
+            return
         R.reset()
         try:
             new, n = pm.subn(pattern, repl, source, count)
         except ValueError as exc:
             if "Unfilled" in str(exc):
                 res["skipped_undefined"] += 1
-                continue
+                return
             viol("sub_raised", {"exc": f"{type(exc).__name__}: {exc}"})
-            continue
+            return
         except Exception as exc:
             viol("sub_raised", {"exc": f"{type(exc).__name__}: {exc}"})
-            continue
+            return
         res["cases"] += 1
         p0 = next((p for p in R.passes if p.get("scheduled") is not None), None)
         sched = [(tuple(s["range"]), s["new"]) for s in (p0["scheduled"] if p0 else [])]
@@ -103,7 +116,7 @@ def w_sub(arg):
         if not occ:
             if new != source:
                 viol("changed_without_occurrence", {"result": new})
-            continue
+            return
         res["with_occurrence"] += 1
         res["nontrivial"].append(env.digest("\0".join([pattern, repl, source, str(count)])))
         ign = sched_model.ignored_line_ranges(source)
@@ -147,7 +160,7 @@ def w_sub(arg):
             res["rolled_back"] += 1
             if new != source:
                 viol("unparsable_candidate_not_rolled_back", {"candidate": cand, "result": new})
-            continue
+            return
         try:
             repls = [(by_span[r][0], subst.instantiate(repl, by_span[r][1])) for r in S if r in by_span]
             expected = subst.replace_nodes(source, repls)
@@ -171,6 +184,7 @@ def w_sub(arg):
                 except (SyntaxError, ValueError):
                     explained = False
                 viol("tree_differs_from_reference_substitution", {
+                    "applied_texts": [source[a:b][:120] for a, b in S], "self_substitution": bool(case.get("is_self") or repl == pattern),
                     "result": new, "expected_text": ast.unparse(expected), "explained_by_textual_instantiation": explained,
                     "bindings": {k: v[0] for r in S if r in by_span for k, v in by_span[r][1].items()}})
             elif S:
@@ -200,16 +214,6 @@ def w_sub(arg):
                         break
                 continue
             pos = idx + len(line)
-        # (9) substituting a pattern by itself preserves the tree
-        if case.get("self_subst") and not re.search(r"\{\{\.\.\.", pattern) and not re.search(r"\{\{\w+[?*+]\}\}", pattern):
-            try:
-                same = pm.sub(pattern, pattern, source)
-                res["self_subst"] += 1
-                if subst.normalised_dump(same) != subst.normalised_dump(source):
-                    viol("self_substitution_changes_tree", {"result": same})
-            except Exception as exc:
-                viol("sub_raised", {"exc": f"{type(exc).__name__}: {exc}", "self_subst": True})
-    return res
 
 
 def _at_line_start(text, idx):
@@ -245,6 +249,8 @@ def w_cli(arg):
             after = path.read_text()
             if want != before:
                 res["nontrivial"].append(env.digest(case["pattern"] + case["repl"] + before))
+            if case["repl"].startswith("-") or case["pattern"].startswith("-"):
+                continue  # argparse would read it as an option: not a CLI usage the tool supports
             if proc.returncode != 0 or after != want:
                 res["violations"].append({"kind": "cli_replace_differs_from_sub", "input": case["source"],
                                           "detail": {"pattern": case["pattern"], "repl": case["repl"], "file_after": after, "sub": want, "rc": proc.returncode,
